@@ -134,11 +134,12 @@ def parseCmd : P String := do
   | none => pure "bad-op hex"
   | some text =>
   if containsHex text then pure "skip hexfloat" else
-  let mp := parse flags k text
-  -- guard the driver against astronomically large declared sizes (model tables are rendered eagerly)
-  let huge : Bool := match mp with
-    | .ok r => decide (r.pre.S * r.pre.A * (max r.pre.S r.pre.O) > 100000)
+  -- guard the driver against astronomically large declared sizes BEFORE running the main pass
+  -- (a `*` over 2^64-1 actions would be expanded eagerly by the model)
+  let huge : Bool := match parseModelInfo (splitLines text) {} [] with
+    | .ok (p, _) => decide (p.S * p.A * (max p.S p.O) > 100000) || decide (p.S > 1000) || decide (p.A > 1000) || decide (p.O > 1000)
     | .error _ => false
+  let mp := if huge then .error .runtime else parse flags k text
   if huge then pure "skip huge_sizes" else
   let isP := k == .pomdp
   let tagE := match ex with | .any => "any" | .rej c => "rej_" ++ c | .wf .. => "wf"
